@@ -571,6 +571,12 @@ def run(ctx):
               how="except IntegrityError: raise DuplicatedStudyError")
 
     # ---------------------------------------------------------------- R03.5 self deadlock
+    ctx.rule("R03.11", "processes sharing a journal file: a reader that polls while another process is in the middle of an append neither "
+             "accepts the half-written record nor remembers an offset computed from it (a cached offset inside a record makes every later "
+             "read of this worker fail or drop the record: a write is lost for it) - the R07.4 / R07.5 reader clauses")
+    from rules import _jfile as J
+    from sa.report import RuleAlias
+    J.rule_reader_guards(RuleAlias(ctx, {}), "R03.11", "R03.11")
     ctx.rule("R03.5", "non-reentrant locks are never re-acquired by a callee inside a held region")
     for info in (inm, jr, cs, gc):
         check_no_self_deadlock(ctx, "R03.5", info)
